@@ -18,6 +18,8 @@ mod c15;
 mod c19;
 #[cfg(feature = "preemptive")]
 mod c22;
+#[cfg(feature = "io_uring")]
+mod uring;
 mod c25;
 mod conn;
 mod io;
@@ -28,10 +30,15 @@ use report::Report;
 use serde_json::Value;
 
 fn scenarios() -> Vec<(&'static str, &'static str)> {
-    vec![("c07.raw", "C07"), ("c08.values", "C08"), ("c09.seq", "C09"), ("c10.sched", "C10"), ("c14.timed", "C14"), ("c15.mix", "C15"), ("c19.opts", "C19"), ("c25.local", "C25"), ("ep.wake", "C20"), ("ep.seq", "C20"), ("stk.grow", "C23"), ("c22.arrival", "C22"), ("stk.fault", "C24"), ("ep.interest", "C21"), ("io.c16", "C16"), ("io.c17", "C17"), ("io.c18", "C18"), ("io.conn", "C18"), ("c28.helpers", "C28"), ("pool.c01", "C01"), ("pool.c02", "C02"), ("pool.c05", "C05"), ("pool.c11", "C11"), ("pool.c12", "C12"), ("pool.c13", "C13")]
+    vec![("c07.raw", "C07"), ("c08.values", "C08"), ("c09.seq", "C09"), ("c10.sched", "C10"), ("c14.timed", "C14"), ("c15.mix", "C15"), ("c19.opts", "C19"), ("c25.local", "C25"), ("ep.wake", "C20"), ("ep.seq", "C20"), ("stk.grow", "C23"), ("c22.arrival", "C22"), ("uring.own", "C27"), ("stk.fault", "C24"), ("ep.interest", "C21"), ("io.c16", "C16"), ("io.c17", "C17"), ("io.c18", "C18"), ("io.conn", "C18"), ("c28.helpers", "C28"), ("pool.c01", "C01"), ("pool.c02", "C02"), ("pool.c05", "C05"), ("pool.c11", "C11"), ("pool.c12", "C12"), ("pool.c13", "C13")]
 }
 
 fn run_scenario(name: &str, tier: &str, rep: &mut Report) -> bool {
+    #[cfg(feature = "io_uring")]
+    if name == "uring.own" {
+        uring::run(tier, rep);
+        return true;
+    }
     #[cfg(feature = "preemptive")]
     if name == "c22.arrival" {
         c22::run(tier, rep);
@@ -59,6 +66,10 @@ fn run_scenario(name: &str, tier: &str, rep: &mut Report) -> bool {
 }
 
 fn replay_scenario(name: &str, v: &Value, em: &mut runner::Emitter) -> bool {
+    #[cfg(feature = "io_uring")]
+    if name == "uring.own" {
+        return uring::replay(v, em);
+    }
     #[cfg(feature = "preemptive")]
     if name == "c22.arrival" {
         return c22::replay(v, em);
